@@ -60,7 +60,7 @@ func byteSeeds(thorough bool) []seed {
 	perType := map[string]int{}
 	ref.Core(thorough, func(v ref.V) bool {
 		w, err := ref.Encode(v.P, opt)
-		if err != nil || len(w.B) > 1100 && !thorough { // quick: seeds of at most 1100 octets (larger encodings are base values of D and thorough seeds)
+		if err != nil || len(w.B) > 1100 && !thorough || len(w.B) > 8192 { // seeds of at most 1100 octets (quick) / 8 KiB (thorough); larger encodings are base values of D, and C01's S2 / S4 spaces build their own large inputs
 			return true
 		}
 		if v.Type == "SliceLossIndication" {
